@@ -91,8 +91,12 @@ CHECKS.update({
     "C05": dict(category="model_checking",
         text="For every enumerated pair of non-reaction families the list yielded by vf2pp_all_isomorphisms(stereo as the class "
              "demands) is compared as a set with TLC's complete set of bijections (translated through the two identifier maps): no "
-             "invalid, missing or duplicate mapping; self pairs give the automorphism group.",
-        design_ref="DESIGN.md 6 (C05)", note=ISO_NOTE, technique=ISO_TECH),
+             "invalid, missing or duplicate mapping; self pairs give the automorphism group. The VF2++ loop itself is specified as a "
+             "TLA+ state machine (spec/VF2.tla; MC_VF2: exact for ALL pairs of labelled graphs on <= 3 / 4 atoms, every matching order, "
+             "every order of taking candidates); runs of the real loop recorded through the env-guarded tracer are replayed step by step "
+             "(Trace_VF2: logged state = specification's successor state, invariants in every state) and their yields compared with the "
+             "specification's own run on the same instance (random graphs <= 7 atoms, corpus molecules up to 60 atoms).",
+        design_ref="DESIGN.md 6 (C05), 11.5", note=ISO_NOTE, technique=ISO_TECH + "; VF2++ loop model (VF2.tla/MC_VF2) + trace validation of the instrumented loop (Trace_VF2)"),
     "C06": dict(category="model_checking",
         text="For every stereo family member TLC gives Enantiomer(g) and whether a bijection onto it exists; enantiomer() must project "
              "to it key by key (atom, bond/axis, inside atom and bond stereo changes), leave the source untouched, be an involution, "
@@ -208,9 +212,9 @@ def main():
         "setup_cmd": "./check setup",
         "hooks": {
             "guard": "STEREOMOLGRAPH_VERIF",
-            "enable": "no hooks inside /repo: checks import the working tree through /venv (editable install of /repo/src) and observe only the public API; the guard name is reserved and exported by ./check",
+            "enable": "./check exports STEREOMOLGRAPH_VERIF=1; the one hook (commit 80a347d, algorithms/isomorphism.py) is a module-level callable _verif_tracer that is None unless harness/vf2trace.py installs a recorder: it reports every step of the VF2++ while loop (init / pop / try with outcome yield|push|reject) with the search state, for replay against spec/VF2.tla. All other checks observe only the public API of the working tree (imported through /venv's editable install of /repo/src, or $VERIF_REPO/src).",
             "baseline_off_cmd": "cd /repo && /venv/bin/python -m pytest -ra -q -p no:cacheprovider --timeout=900 --continue-on-collection-errors",
-            "source_commits": [],
+            "source_commits": ["80a347d"],
             "add_only": True,
         },
         "engines": [{
